@@ -2,8 +2,10 @@ package main
 
 import (
 	"fmt"
+	"go/constant"
 	"go/token"
 	"go/types"
+	"math"
 	"strings"
 
 	"golang.org/x/tools/go/ssa"
@@ -1003,6 +1005,115 @@ func runVALIDALL(c *Ctx, r *Result, rule string) int {
 				o.Verdict, o.Reason = Discharged, fmt.Sprintf("every path to this return validated each of the %d sub-pictures or found it empty", len(pieces))
 			} else {
 				o.Verdict, o.Reason = Finding, "a picture can be accepted on a path on which one of its sub-pictures was neither validated nor empty: an invalid sub-picture goes unnoticed whenever the number's sign selects the other one"
+			}
+			r.Add(o)
+		}
+	}
+	return n
+}
+
+// ---------------------------------------------------------------------------------------
+// F2I (C02, C03, C18): no silent truncation of a JSONata number.
+//
+// JSONata numbers are doubles; where the evaluator needs an integer the specification says how
+// it is obtained (floor for a predicate index, round for a radix, "must be an integer" for a
+// range bound). Go's int(f) truncates toward zero, which differs from floor for every negative
+// fraction (x[-0.5] must select the last item, not the first). Rule: every float -> integer
+// conversion in the given functions converts the result of math.Floor/Ceil/Round/Trunc (or of a
+// module function that only returns such results, or of jlib.Round), or a sum/difference of
+// integral values; anything else needs a reviewed entry.
+// ---------------------------------------------------------------------------------------
+
+var f2iExceptions = map[string]string{
+	"jsonata.evalRange:int#1":    "[value] both bounds were tested with isInteger (a non-integer bound is the error ErrNonIntegerLHS/RHS a few lines above), so their difference is integral",
+	"jlib.callMatchFunc:int#1":   "[protocol] the offsets of a match object: matchCallable writes them from int values; a user-defined matcher that returns fractions gets them truncated, which no property speaks about",
+	"jlib.callMatchFunc:int#2":   "[protocol] as #1",
+}
+
+func isFloatT(t types.Type) bool {
+	b, ok := t.Underlying().(*types.Basic)
+	return ok && b.Info()&types.IsFloat != 0
+}
+
+func integralFloat(c *Ctx, v ssa.Value, depth int) bool {
+	if depth > 4 {
+		return false
+	}
+	switch x := v.(type) {
+	case *ssa.Const:
+		if x.Value == nil {
+			return false
+		}
+		f, _ := constant.Float64Val(constant.ToFloat(x.Value))
+		return f == math.Trunc(f)
+	case *ssa.Convert:
+		// an integer converted to float
+		if b, ok := x.X.Type().Underlying().(*types.Basic); ok && b.Info()&types.IsInteger != 0 {
+			return true
+		}
+	case *ssa.Call:
+		switch staticName(x) {
+		case "math.Floor", "math.Ceil", "math.Round", "math.Trunc", "math.RoundToEven":
+			return true
+		}
+		if callee := x.Call.StaticCallee(); callee != nil && c.G.InSc[callee] && len(callee.Blocks) > 0 {
+			if shortFn(callee) == "jlib.Round" {
+				// reviewed: Round(x, precision unset) rounds to an integer
+				return true
+			}
+			all, n := true, 0
+			for _, b := range callee.Blocks {
+				if ret, ok := b.Instrs[len(b.Instrs)-1].(*ssa.Return); ok && len(ret.Results) >= 1 && isFloatT(ret.Results[0].Type()) {
+					n++
+					if !integralFloat(c, ret.Results[0], depth+1) {
+						all = false
+					}
+				}
+			}
+			return all && n > 0
+		}
+	case *ssa.BinOp:
+		if x.Op == token.ADD || x.Op == token.SUB || x.Op == token.MUL {
+			return integralFloat(c, x.X, depth+1) && integralFloat(c, x.Y, depth+1)
+		}
+	case *ssa.UnOp:
+		if x.Op == token.SUB {
+			return integralFloat(c, x.X, depth+1)
+		}
+	case *ssa.Phi:
+		for _, e := range x.Edges {
+			if e != v && !integralFloat(c, e, depth+1) {
+				return false
+			}
+		}
+		return true
+	}
+	return false
+}
+
+func runF2I(c *Ctx, r *Result, rule string, fns []*ssa.Function) int {
+	n := 0
+	for _, f := range fns {
+		ord := 0
+		for _, ins := range instrsIn(f) {
+			cv, ok := ins.(*ssa.Convert)
+			if !ok || !isFloatT(cv.X.Type()) {
+				continue
+			}
+			if b, ok := cv.Type().Underlying().(*types.Basic); !ok || b.Info()&types.IsInteger == 0 {
+				continue
+			}
+			ord++
+			n++
+			key := fmt.Sprintf("%s:int#%d", shortFn(f), ord)
+			o := Obligation{Rule: rule, Key: key, Fn: shortFn(f), Pos: c.W.Pos(cv.Pos()), Nontrivial: true}
+			switch {
+			case integralFloat(c, cv.X, 0):
+				o.Verdict, o.Reason = Discharged, "the converted value is the result of Floor/Ceil/Round/Trunc (or a sum of such): the conversion does not truncate"
+			case f2iExceptions[key] != "":
+				o.Verdict, o.Reason = Exception, "reviewed ("+key+"): "+f2iExceptions[key]
+			default:
+				o.Verdict, o.Reason = Finding, "a JSONata number ("+describeVal(cv.X)+") is converted to an integer without Floor/Ceil/Round/Trunc: Go truncates toward zero, so negative fractions go the wrong way (x[-0.5] selects the first item instead of the last)"
 			}
 			r.Add(o)
 		}
